@@ -247,11 +247,11 @@ class kMinPathError(pathmodel.AbstractPathModelDAG):
             self.optimization_options["optimize_with_subpath_constraints_as_safe_sequences"] = True
             self.optimization_options["optimize_with_safety_as_subpath_constraints"] = True
 
-        self.w_max = self.k * self.weight_type(
-            self.G.get_max_flow_value_and_check_non_negative_flow(
-                flow_attr=self.flow_attr, edges_to_ignore=self.edges_to_ignore
-            )
+        max_flow_value = self.G.get_max_flow_value_and_check_non_negative_flow(
+            flow_attr=self.flow_attr, edges_to_ignore=self.edges_to_ignore
         )
+        # (integer weights for fractional data: round the bound up, int() would truncate it, down to 0 for values below 1)
+        self.w_max = self.k * (math.ceil(max_flow_value) if self.weight_type == int else self.weight_type(max_flow_value))
         # (with given weights several of them can pile up on one edge: errors and slacks can reach their sum)
         self.w_max = max(self.w_max, sum(self.solution_weights_superset or [0]))
 
